@@ -705,13 +705,49 @@ def unroll_const_loops(fnode, consts=None, limit=8):
     BODY[x:=c1]; BODY[x:=c2]; ...   and   getattr(obj, 'name')  becomes  obj.name"""
     fn = clone(fnode)
 
+    def const_str(e):
+        """value of a string expression built from literals with + and %"""
+        if isinstance(e, ast.Constant) and isinstance(e.value, str):
+            return e.value
+        if isinstance(e, ast.BinOp) and isinstance(e.op, ast.Add):
+            l, r = const_str(e.left), const_str(e.right)
+            return l + r if l is not None and r is not None else None
+        if isinstance(e, ast.BinOp) and isinstance(e.op, ast.Mod) and isinstance(e.left, ast.Constant) and isinstance(e.left.value, str):
+            args = e.right.elts if isinstance(e.right, ast.Tuple) else [e.right]
+            vals = [const_str(a) for a in args]
+            if all(v is not None for v in vals):
+                try:
+                    return e.left.value % tuple(vals)
+                except (TypeError, ValueError):
+                    return None
+        return None
+
     class G(ast.NodeTransformer):
         def visit_Call(self, c):
             self.generic_visit(c)
-            if isinstance(c.func, ast.Name) and c.func.id == 'getattr' and len(c.args) == 2 and not c.keywords \
-                    and isinstance(c.args[1], ast.Constant) and isinstance(c.args[1].value, str) and c.args[1].value.isidentifier():
-                return ast.copy_location(ast.Attribute(value=c.args[0], attr=c.args[1].value, ctx=ast.Load()), c)
+            if isinstance(c.func, ast.Name) and c.func.id == 'getattr' and len(c.args) == 2 and not c.keywords:
+                nm = const_str(c.args[1])
+                if nm is not None and nm.isidentifier():
+                    return ast.copy_location(ast.Attribute(value=c.args[0], attr=nm, ctx=ast.Load()), c)
             return c
+
+        def visit_Subscript(self, n):
+            self.generic_visit(n)
+            # m.groupdict()[name] is m.group(name)
+            if isinstance(n.ctx, ast.Load) and isinstance(n.value, ast.Call) and isinstance(n.value.func, ast.Attribute) and n.value.func.attr == 'groupdict' \
+                    and not n.value.args and not n.value.keywords and isinstance(n.slice, ast.Constant) and isinstance(n.slice.value, str):
+                return ast.copy_location(ast.Call(func=ast.Attribute(value=n.value.func.value, attr='group', ctx=ast.Load()), args=[n.slice], keywords=[]), n)
+            return n
+
+        def visit_Expr(self, st):
+            self.generic_visit(st)
+            # setattr(obj, '<name>', v) is obj.<name> = v
+            c = st.value
+            if isinstance(c, ast.Call) and isinstance(c.func, ast.Name) and c.func.id == 'setattr' and len(c.args) == 3 and not c.keywords:
+                nm = const_str(c.args[1])
+                if nm is not None and nm.isidentifier():
+                    return ast.copy_location(ast.Assign(targets=[ast.Attribute(value=c.args[0], attr=nm, ctx=ast.Store())], value=c.args[2]), st)
+            return st
 
     # locals bound exactly once (anywhere in the function, nested definitions included) to a literal table
     tables = {}
